@@ -1,7 +1,7 @@
 ------------------------------- MODULE MC_C09 -------------------------------
 (* C09: cumulative, difference and arg-extremum operations keep axis bookkeeping right. *)
 EXTENDS Arrays, Json
-CONSTANTS MaxLen, Emit
+CONSTANTS MaxLen, MaxDim, ArgDim, Emit       \* MaxDim: dimensions of the arrays; ArgDim: dimensions of the arg-extremum scenarios
 VARIABLES in, out, ph
 vars == <<in, out, ph>>
 
@@ -10,22 +10,23 @@ OpL == <<24, 8, 40, 16, 32>>          \* unsorted
 OpLs(n) == {SubSeq(OpL, 1, n), SortSet(Rng(SubSeq(OpL, 1, n))), Rev(SortSet(Rng(SubSeq(OpL, 1, n))))}
 Other1 == <<4, 2>>
 Other2 == <<2, 6, 4>>
+Other3 == <<6, 2>>
 \* the operated dimension "x" at position p of an nd-dimensional array
 Arr(L, nd, p, base) ==
-  LET others == <<"p", "q">>
+  LET others == <<"p", "q", "r">>
       dims == InsertAt(SubSeq(others, 1, nd - 1), p, "x")
-      labs == [i \in 1..nd |-> IF dims[i] = "x" THEN L ELSE IF dims[i] = "p" THEN Other1 ELSE Other2]
+      labs == [i \in 1..nd |-> IF dims[i] = "x" THEN L ELSE IF dims[i] = "p" THEN Other1 ELSE IF dims[i] = "q" THEN Other2 ELSE Other3]
   IN Fresh(dims, [i \in 1..nd |-> "i"], labs, [i \in 1..nd |-> i], "f", 7, base)
 
 \* value patterns for argmin / argmax: ties and NaNs
-ValPatterns(n) == IF n <= 3 THEN [1..n -> {NaN, 5, 7}] ELSE {[k \in 1..n |-> 5 + ((k * 7) % 3)], [k \in 1..n |-> IF k = 2 THEN NaN ELSE 9 - (k % 2)], [k \in 1..n |-> 5]}
+ValPatterns(n) == IF n <= (IF ArgDim = 2 THEN 3 ELSE 4) THEN [1..n -> {NaN, 5, 7}] ELSE {[k \in 1..n |-> 5 + ((k * 7) % 3)], [k \in 1..n |-> IF k = 2 THEN NaN ELSE 9 - (k % 2)], [k \in 1..n |-> 5]}
 
 NoIn == [op |-> "", a |-> <<>>, d |-> 0, n |-> 0, scheme |-> "", keepaxis |-> FALSE, which |-> "", whole |-> FALSE, dflt |-> FALSE]
 Init == in = NoIn /\ out = <<>> /\ ph = 0
 
 ChooseArray ==
   /\ ph = 0 /\ ph' = 1 /\ out' = out
-  /\ \E len \in 1..MaxLen : \E L \in OpLs(len) : \E nd \in 1..3 : \E p \in 1..nd :
+  /\ \E len \in 1..MaxLen : \E L \in OpLs(len) : \E nd \in 1..MaxDim : \E p \in 1..nd :
        in' = [NoIn EXCEPT !.a = Arr(L, nd, p, 100), !.d = p]
 
 ChooseOp ==
@@ -38,7 +39,7 @@ ChooseOp ==
           /\ (df => in.d = NDim(in.a) /\ n = 1 /\ sch = "backward" /\ ~ka)
           /\ in' = [in EXCEPT !.op = "diff", !.n = n, !.scheme = sch, !.keepaxis = ka, !.dflt = df]
      \/ \E w \in {"min", "max"} : \E whole \in BOOLEAN : \E vp \in ValPatterns(Len(in.a.cells)) :
-          /\ NDim(in.a) <= 2 /\ Len(in.a.cells) <= 6
+          /\ NDim(in.a) <= ArgDim /\ Len(in.a.cells) <= (IF ArgDim = 2 THEN 6 ELSE 18)
           /\ in' = [in EXCEPT !.op = "argext", !.which = w, !.whole = whole, !.a = [in.a EXCEPT !.cells = vp]]
 
 Apply ==
